@@ -118,12 +118,12 @@ for c in (3, 4):
                         if ft == 0:
                             d['dead_witnesses'] = ['a row is dropped by the site filter']
                         if c == 3:
-                            d['quick_sample'] = {'family': 'C06.row', 'pick': 16, 'always': always}
-for (nm, fn) in [('noconst', 'filter2_noconst_plain'), ('noconst.uk', 'filter2_noconst_uk'), ('nofilter.am.uk', 'filter2_nofilter_am_uk'), ('noambig.mask', 'filter2_noambig_mask'),
-                 ('noambigorconst.all', 'filter2_noambigorconst_all'), ('noconst.ng', 'filter2_noconst_ng'), ('noambigorconst', 'filter2_noambigorconst_plain'), ('nofilter.mask.uk', 'filter2_nofilter_mask_uk')]:
-    ob('C06.align.' + nm, ['C06'], 'merge_ska_array/filter', fn, tier='quick' if nm in ('noconst.uk', 'noambigorconst.all') else 'thorough', functions=FILTF, inst='u64', needs_parts=['merge_ska_array/common'],
-       caps={'RCAP': 2, 'CCAP': 3, 'SCAP': 3, 'MCAP': 1}, models=['ndarray', 'hashbrown'], sym='2 rows x 3 symbols over the 16 stored symbols, min_count 0..=3',
-       oracle='kept rows keep their order; k-mers (when updated), variants and counts stay row-aligned; removed count', bounds='2 rows x 3 samples, flags: ' + nm, timeout=3600, mem_gb=24, mem_expect_gb=10)
+                            d['quick_sample'] = {'family': 'C06.row', 'pick': 8, 'always': always}
+for (nm, fn) in [('noconst', 'filter2_noconst_plain'), ('noconst.uk', 'filter2_noconst_uk'), ('noambig.mask', 'filter2_noambig_mask'),
+                 ('noconst.ng', 'filter2_noconst_ng'), ('noambigorconst', 'filter2_noambigorconst_plain'), ('nofilter.mask.uk', 'filter2_nofilter_mask_uk')]:
+    ob('C06.align.' + nm, ['C06'], 'merge_ska_array/filter', fn, tier='quick' if nm in ('noconst.uk', 'noambig.mask') else 'thorough', functions=FILTF, inst='u64', needs_parts=['merge_ska_array/common'],
+       caps={'RCAP': 2, 'CCAP': 2, 'SCAP': 2, 'MCAP': 1}, models=['ndarray', 'hashbrown'], stubs=['update_counts(false) -> identity on arrays with exact counts (lemma C06.cnt; configurations without ambig-as-missing only)'], sym='2 rows x 2 symbols over the 16 stored symbols, min_count 0..=2',
+       oracle='kept rows keep their order; k-mers (when updated), variants and counts stay row-aligned; removed count', bounds='2 rows x 2 samples, flags: ' + nm, timeout=3600, mem_gb=24, mem_expect_gb=10)
 ob('C06.cnt', ['C06', 'C10'], 'merge_ska_array/filter', 'update_counts_2x3', functions=[MA + 'update_counts'], inst='u64', needs_parts=['merge_ska_array/common'], caps={'RCAP': 2, 'CCAP': 3, 'SCAP': 3, 'MCAP': 1}, models=['ndarray'],
    sym='2 rows x 3 symbols, stale counts, both counting modes', oracle='counts recomputed, empty rows removed, k-mers aligned', bounds='2x3', timeout=1200, mem_gb=10)
 
